@@ -44,6 +44,15 @@ PAIRS: list[tuple[str, list[str]]] = [
     ("autolink", ["<http://u/qza>"]),
     ("long-tag", ['{% qza qzb="qzc qzd" qze=1 %}']),
     ("multi-bt", ["``qza ` qzb``"]),
+    # a sentence end inside the construct (semantic mode must not break there)
+    ("code-inner-end", ["`qza qzb. qzc`"]),
+    ("link-inner-end", ["[qza qzb. qzc](http://u/qzd)"]),
+    ("tag-inner-end", ["{% qza qzb. qzc %}"]),
+    ("comment-inner-end", ["<!-- qza qzb. qzc -->"]),
+    ("html-inner-end", ['<span title="qza qzb. qzc">']),
+    ("image-title-inner-end", ['![qza](u "qzb qzc. qzd")']),
+    ("var-inner-end", ["{{ qza qzb? qzc }}"]),
+    ("link-end-then-sentence", ["[qza qzb! qzc](u).", "qzd"]),
     # "+" between two entries: adjacent in the source (no space), not a paired open/close
     ("tag+tag", ["{% qza %}", "+", "{% qzb %}"]),
     ("comment+comment", ["<!-- qza -->", "+", "<!-- qzb -->"]),
@@ -174,6 +183,9 @@ def key_fn(case: dict[str, Any], label: str, item: dict[str, Any], conc: dict[st
     if case["special"] in SEPARATED_TAGS and label == "atomic:words":
         # two tags/comments of the same family separated by one space in the source
         return "separated-tags/atomic:words"
+    if case.get("sem") and label == "atomic:words" and (str(case["special"]).endswith("-inner-end") or case["special"] == "link-end-then-sentence"):
+        # semantic mode only: a sentence end inside a construct
+        return "sentence-end-inside-construct/atomic:words"
     return f"{case['fam']}[{str(case['special']).replace(' ', '_')}]/{label}"
 
 
